@@ -7,7 +7,6 @@
   the generic theorems say what any such program computes on any buffer.
 -/
 import ElfVerif.Lemmas.Prog
-import ElfVerif.Lemmas.Accessors
 import ElfVerif.Ref.AbiLayouts
 import ElfVerif.Props.C04
 namespace Elf.C02
@@ -173,51 +172,6 @@ theorem r_info32_roundtrip (s t : Nat) (ht : t < 256) :
 /-- ELF64_R_INFO(s,t) = (s << 32) + t  round-trips through the split. -/
 theorem r_info64_roundtrip (s t : Nat) (ht : t < 2 ^ 32) :
     (s * 2 ^ 32 + t) / 2 ^ 32 = s ∧ (s * 2 ^ 32 + t) % 2 ^ 32 = t := by omega
-
-/-! ## Derived accessors
-
-The accessors are the *generated* translations of the Rust bodies (`Gen.acc_*`, Generated/Accessors.lean, rewritten
-from /repo on every run).  Their parameter lists say which fields of the record each reads — `Symbol.isUndefined` etc.
-in Model/Structs.lean pass exactly those, by name — and Lemmas/Accessors.lean evaluates them, in the kernel, on
-**every** value of the field's type (`u8`: 256 values, `u16`: 65536 values) against the ABI macro
-(`st_byte_table`, `halfword_table`).  So the statements below hold for every record, whatever its other fields hold,
-and they keep holding under any rewrite of a body that computes the same function. -/
-
-/-- ELF_ST_BIND(i) = i >> 4, ELF_ST_TYPE(i) = i & 0xf, for ELF_ST_INFO(b,t) = (b << 4) + (t & 0xf). -/
-theorem st_info_split (s : Symbol) (b t : Nat) (ht : t < 16) (hi : s.st_info < 256) (h : s.st_info = b * 16 + t) :
-    s.stBind = b ∧ s.stSymtype = t := by
-  rw [Symbol.stBind_eq, Symbol.stSymtype_eq]
-  omega
-
-/-- ELF_ST_VISIBILITY(o) = o & 0x3. -/
-theorem st_vis_spec (s : Symbol) : s.stVis = s.st_other % 4 := Symbol.stVis_eq s
-
-/-- The undefined-symbol test is `st_shndx == SHN_UNDEF (0)` — a function of `st_shndx` alone: value, size, name,
-    binding and type of the symbol do not enter (an undefined symbol may carry a PLT address in `st_value`). -/
-theorem is_undefined_spec (s : Symbol) (hx : s.st_shndx < 65536) : s.isUndefined = true ↔ s.st_shndx = 0 := by
-  rw [Symbol.isUndefined_eq, Nat.mod_eq_of_lt hx]
-  simp
-
-/-- Version index: low 15 bits; hidden flag: bit 15. -/
-theorem version_index_spec (v : Nat) (hv : v < 2 ^ 16) :
-    VersionIndex.index v = v % 2 ^ 15 ∧ (VersionIndex.isHidden v = true ↔ 2 ^ 15 ≤ v) := by
-  refine ⟨VersionIndex.index_eq v, ?_⟩
-  rw [VersionIndex.isHidden_eq, Nat.mod_eq_of_lt hv]
-  simp
-
-theorem version_local_global (v : Nat) :
-    (VersionIndex.isLocal v = true ↔ VersionIndex.index v = 0) ∧
-    (VersionIndex.isGlobal v = true ↔ VersionIndex.index v = 1) := by
-  rw [VersionIndex.isLocal_eq, VersionIndex.isGlobal_eq, VersionIndex.index_eq]
-  simp
-
-/-- `d_val` and `d_ptr` are the two readings of the one `d_un` word. -/
-theorem d_val_d_ptr (d : Dyn) : d.dVal = d.d_un ∧ d.dPtr = d.d_un := by
-  constructor <;> rfl
-
-/- Non-vacuity: a record as the parsers build them (bytes and halfwords in range), undefined although it carries a value -/
-example : (⟨1, 0, 0x12, 3, 0x401020, 9⟩ : Symbol).st_shndx < 65536 ∧
-    (⟨1, 0, 0x12, 3, 0x401020, 9⟩ : Symbol).isUndefined = true := by decide
 
 /- Non-vacuity: an Elf32_Rela entry, MSB: offset 0x10, info = (7 << 8) + 2, addend = -4 -/
 example : (Rela.ep.parse false .ELF32
